@@ -1022,8 +1022,8 @@ def abstract_filtered_comp(E, e, g, fr, sq, elem, saved):
     subsequence selected by a strictly increasing index function SEL (uninterpreted) of some length m <= len(seq):
         result[j] = elt(seq[SEL(j)]),  cond(seq[SEL(j)]),  0 <= SEL(j) < len(seq),  SEL(j) < SEL(j+1)
     Such SEL, m exist for every concrete sequence (the positions the filter accepts), and only instances of these facts are
-    used, so this is a sound abstraction; that SEL hits EVERY accepted position is not stated (not needed by the units that
-    use it: their specifications are written over the selected subsequence).  The view is exposed in E.ghost['filtered']"""
+    used, so this is a sound abstraction; that SEL hits EVERY accepted position is stated through the skolem function RANK
+    (rank_facts, instantiated by the unit at its generic index).  The view is exposed in E.ghost['filtered']"""
     m = E.fresh_int('nsel')
     SEL = z3.Function(E.fresh_name('SEL'), z3.IntSort(), z3.IntSort())
     E.fact(z3.And(m >= 0, m <= sq.n))
@@ -1058,7 +1058,24 @@ def abstract_filtered_comp(E, e, g, fr, sq, elem, saved):
         finally:
             E.pc, E._pc_ids, E.no_fork = pc_saved
             _restore(fr, sv)
-    E.ghost['filtered'] = {'m': m, 'SEL': SEL, 'source': sq}
+    # completeness of the selection (Python evaluates the filter at EVERY position, in order): an accepted position i is
+    # the SEL-image of its rank.  RANK is the skolem function of "exists j. SEL(j) = i"; instantiated on request only.
+    RANK = z3.Function(E.fresh_name('RANK'), z3.IntSort(), z3.IntSort())
+
+    def rank_facts(i):
+        i = I(i)
+        sv = dict(fr.locals)
+        E.assign(g.target, elem(i), fr)
+        saved_fork = E.no_fork
+        E.no_fork = True
+        try:
+            acc = [E.truth(E.eval(cond, fr)) for cond in g.ifs]
+        finally:
+            E.no_fork = saved_fork
+            _restore(fr, sv)
+        r = RANK(i)
+        return [z3.Implies(z3.And(i >= 0, i < sq.n, *acc), z3.And(r >= 0, r < m, SEL(r) == i))]
+    E.ghost['filtered'] = {'m': m, 'SEL': SEL, 'source': sq, 'RANK': RANK, 'sel_facts': sel_facts, 'rank_facts': rank_facts}
     return E.new_list(VSeq('list', m, at))
 
 
@@ -1118,6 +1135,29 @@ def m_startswith(E, a, kw):
         raise Unsupported('startswith symbolic prefix')
     conj = [s.n >= cp] + [elem_eq(s.at(z3.IntVal(k)), p.at(z3.IntVal(k))) for k in range(cp)]
     return VBool(z3.simplify(z3.And(*conj)))
+
+
+@method(('str', 'bytes'), 'partition')
+def m_partition(E, a, kw):
+    """s.partition(c) for a one-element concrete-length separator: (s[:p], s[p:p+1] or empty, s[p+1:]) where p is the first
+    position holding c, or len(s) if there is none.  `first` is stated per accessed index of the head (no quantifier):
+    reading head[i] records s[i] != c."""
+    s, sp = a[0], a[1]
+    if not (isinstance(sp, VSeq) and sp.kind == s.kind and sp.clen() == 1):
+        raise Unsupported('partition with a separator that is not one element')
+    c = sp.at(z3.IntVal(0))
+    n = s.n
+    p = E.fresh_int('part_pos')
+    E.fact(z3.And(p >= 0, p <= n))
+    E.fact(z3.Implies(p < n, elem_eq(s.at(p), c)))
+
+    def head_at(i, s=s, p=p, c=c):
+        E.fact(z3.Implies(z3.And(I(i) >= 0, I(i) < p), z3.Not(elem_eq(s.at(I(i)), c))))
+        return s.at(i)
+    head = VSeq(s.kind, p, head_at)
+    mid = VSeq(s.kind, z3.If(p < n, z3.IntVal(1), z3.IntVal(0)), lambda i, c=c: c)
+    tail = VSeq(s.kind, z3.If(p < n, n - p - 1, z3.IntVal(0)), lambda i, s=s, p=p: s.at(z3.simplify(p + 1 + I(i))))
+    return VTuple([head, mid, tail])
 
 
 @method(('str', 'bytes'), 'endswith')
